@@ -510,3 +510,37 @@ def rename_nodes(draw, spec):
         fix(a)
     spec["node_names"] = "adversarial"
     return spec
+
+
+PLAIN_WINDOWED = ("simple", "contract", "transport", "exttransport", "storage", "multi")
+
+
+def make_gap(draw, spec):
+    """restrict every asset to a window before g0 or from g1 on, so that no asset at all is active in the steps
+    [g0, g1) (phases of a portfolio that do not touch).  Assets without a plain window (or with takes) are left out.
+    Returns [g0, g1] or None (spec unchanged) if nothing would remain."""
+    T = spec["grid"]["T"]
+    if T < 4:
+        return None
+    g0 = draw(st.integers(1, T - 2))
+    g1 = draw(st.integers(g0 + 1, T - 1))
+    keep = []
+    for a in spec["assets"]:
+        if a["type"] not in PLAIN_WINDOWED or a.get("min_take") or a.get("max_take") or a.get("freq") or a.get("periodicity"):
+            continue
+        s_, e_ = a.get("start"), a.get("end")
+        s_ = 0 if s_ is None else s_
+        e_ = T if e_ is None else e_
+        if draw(st.booleans()):
+            e_ = min(e_, g0)
+            if s_ >= e_:
+                s_ = draw(st.integers(0, e_ - 1))
+        else:
+            s_ = max(s_, g1)
+            if e_ <= s_:
+                e_ = draw(st.integers(s_ + 1, T))
+        keep.append(dict(a, start=s_, end=e_))
+    if not keep:
+        return None
+    spec["assets"] = keep
+    return [g0, g1]
